@@ -1339,6 +1339,7 @@ pub struct ParserState {
     block_unmapped_keys: bool,
     switch_max_key_timing: Cell<u16>,
     multi_action_nest_count: Cell<u16>,
+    action_nest_count: Cell<u16>,
     pctx: ParserContext,
     pub lsp_hints: RefCell<LspHints>,
     a: Arc<Allocations>,
@@ -1370,6 +1371,7 @@ impl Default for ParserState {
             block_unmapped_keys: default_cfg.block_unmapped_keys,
             switch_max_key_timing: Cell::new(0),
             multi_action_nest_count: Cell::new(0),
+            action_nest_count: Cell::new(0),
             lsp_hints: Default::default(),
             a: unsafe { Allocations::new() },
             pctx: ParserContext::default(),
@@ -1611,8 +1613,20 @@ fn read_alias_name_action_pairs<'a>(
 }
 
 /// Parse a `kanata_keyberon::action::Action` from a `SExpr`.
+/// Actions are parsed by recursion. Variables can nest actions deeper than the nesting of lists
+/// in the configuration text, so the depth is limited here as well.
+const MAX_ACTION_NESTING: u16 = 128;
+
 fn parse_action(expr: &SExpr, s: &ParserState) -> Result<&'static KanataAction> {
-    expr.atom(s.vars())
+    if s.action_nest_count.get() >= MAX_ACTION_NESTING {
+        bail_expr!(
+            expr,
+            "Actions are nested too deeply; the limit is {MAX_ACTION_NESTING}"
+        );
+    }
+    s.action_nest_count.set(s.action_nest_count.get() + 1);
+    let action = expr
+        .atom(s.vars())
         .map(|a| parse_action_atom(&Spanned::new(a.into(), expr.span()), s))
         .unwrap_or_else(|| {
             expr.list(s.vars())
@@ -1624,7 +1638,9 @@ fn parse_action(expr: &SExpr, s: &ParserState) -> Result<&'static KanataAction> 
                 e.span = Some(expr.span())
             };
             e
-        })
+        });
+    s.action_nest_count.set(s.action_nest_count.get() - 1);
+    action
 }
 
 /// Returns a single custom action in the proper wrapped type.
